@@ -4089,7 +4089,15 @@ class TryExceptNode(ActionSinkNode, ActionSourceNode):
         # If there _is_ a handler, add it after
         if self.handler is not None:
             handler_dfa = self.handler.convert(current_error_handlers)
-            sub_dfa.append_after(handler_dfa, sub_states=[self.handler_node], chain_actions=self.incoming_handler_actions)
+            if self.incoming_handler_actions and handler_dfa.starting_state in handler_dfa.accepting_states:
+                # The handler is also entered by jumps that are not transitions (out of space), so actions chained into a first state
+                # that can be passed straight through would be lost on those entries: run them on a fallthrough of their own.
+                entry_node = DFState()
+                sub_dfa.add(entry_node)
+                self.handler_node.transition(DFTransition([DFTransition.Else], fallthrough=True).to(entry_node).attach(*self.incoming_handler_actions))
+                sub_dfa.append_after(handler_dfa, sub_states=[entry_node])
+            else:
+                sub_dfa.append_after(handler_dfa, sub_states=[self.handler_node], chain_actions=self.incoming_handler_actions)
         else:
             # Otherwise, create a fallthrough dummy transition to hook up the handler actions.
             dummy_end_node = DFState()
